@@ -98,6 +98,11 @@ def build_type_dict_from_type(t: Type, at_class: Optional[Type] = None) -> Dict[
     generic_type = get_origin(t)
     if generic_type is None:
         if at_class is not None:
+            # A class that is not generic itself can still fix the parameters of `at_class`
+            # further up: class JetList(Coll[Jet]).
+            inherited = get_inherited(t)
+            if inherited is not Any:
+                return build_type_dict_from_type(inherited, at_class)
             raise TypeError(f"Could not find type {str(at_class)} in {str(t)}")
         return {}
 
